@@ -906,5 +906,13 @@ fn main() {
         "corpus" => scenario_corpus(&args, &mut report),
         other => report.inconclusive(format!("unknown scenario {}", other)),
     }
+    // requests that timed out while the tracker did not answer canary requests either cannot be judged
+    let undecided = vhttp::live::UNDECIDED.load(std::sync::atomic::Ordering::SeqCst);
+    if undecided > 0 {
+        let before = report.violations.len();
+        report.violations.retain(|_, (v, _)| !v.detail.contains("Timeout"));
+        report.inconclusive(format!("{} request(s) timed out while canary requests were not answered either (machine overloaded, or the whole tracker is gone): {} timeout verdict(s) withdrawn", undecided, before - report.violations.len()));
+    }
+    report.add("replies_later_than_expected_but_before_the_canaries_finished", vhttp::live::LATE_REPLIES.load(std::sync::atomic::Ordering::SeqCst));
     report.finish(&args.out());
 }
